@@ -260,8 +260,10 @@ def _param_types(draw, nstructs, allow_fp=True):
 
 
 @st.composite
-def func_defs(draw, nstructs, allow_va=True, allow_fp=True, max_args=6):
+def func_defs(draw, nstructs, allow_va=True, allow_fp=True, max_args=6, many_args=False):
     nargs = draw(st.integers(0, max_args))
+    if many_args and draw(st.integers(0, 5)) == 0:
+        nargs = draw(st.integers(7, 13))          # more than the registers hold: the rest goes on the stack
     args = [draw(param_types(nstructs, allow_fp)) for _ in range(nargs)]
     va = allow_va and draw(st.integers(0, 6)) == 6
     c = draw(st.integers(0, 9))
@@ -286,10 +288,10 @@ def func_defs(draw, nstructs, allow_va=True, allow_fp=True, max_args=6):
 
 
 @st.composite
-def modules(draw, min_funcs=8, max_funcs=20, allow_va=True, allow_fp=True, max_structs=3):
+def modules(draw, min_funcs=8, max_funcs=20, allow_va=True, allow_fp=True, max_structs=3, many_args=False):
     ns = draw(st.integers(0, max_structs))
     structs = [draw(struct_defs(k)) for k in range(ns)]
-    funcs = [draw(func_defs(ns, allow_va, allow_fp))
+    funcs = [draw(func_defs(ns, allow_va, allow_fp, many_args=many_args))
              for _ in range(draw(st.integers(min_funcs, max_funcs)))]
     return {'structs': structs, 'funcs': funcs}
 
@@ -1354,12 +1356,15 @@ def sysv_arg_classes(mod, t):
     return cls
 
 
-def libffi_last_gpr_mixed_struct(mod, argtypes):
+def libffi_last_gpr_mixed_struct(mod, argtypes, ret=None):
     """True iff some by-value struct argument classified [INTEGER, SSE] (in this order) is passed in
     registers taking the 6th and last integer register while at least one SSE register is already in
     use: the call shape for which libffi 3.4.4's x86-64 ffi_call puts the struct's SSE half into the
-    wrong register (also reproducible with ctypes)."""
+    wrong register (also reproducible with ctypes).  A result returned in memory (struct > 16 bytes)
+    occupies the first integer register with its hidden pointer (checked with ctypes too)."""
     g = x = 0
+    if ret is not None and ret[0] == 's' and sysv_arg_classes(mod, ret) == 'MEMORY':
+        g = 1
     for t in argtypes:
         cls = sysv_arg_classes(mod, t)
         if cls == 'MEMORY':
